@@ -43,7 +43,7 @@ This is false for the code as it is (F19, known finding): the closures infer the
 first key they see and switch to the fallback for good when they meet a stranger, so the answer to
 `less a b` depends on the comparisons made before.  Proved instead: `contextual_partial`,
 `date_partial` (hypothesis: all keys infer the same table / share one layout, or none does) and
-`contextual_counterexample`, `date_counterexample` at the witnesses.
+`contextual_counterexample`, `date_counterexample`, `date_layout_counterexample` at the witnesses.
 -/
 namespace Rare.C13
 
@@ -174,6 +174,30 @@ theorem date_counterexample :
           [asc "abc", asc "01/02/2022", asc "12/31/2021"]).1
         = [asc "01/02/2022", asc "12/31/2021", asc "abc"] := by
   refine ⟨by decide, by decide, by decide⟩
+
+/-- Library behaviour at the third witness (recorded from the real `dateparse`/`time`): layout 0 =
+`2006-01-02` (inferred from the zero-padded keys) does not parse `2022-9-3`; layout 1 = `2006-1-2`
+(inferred from `2022-9-3`) parses all three.  `ParseFloat`/`ToLower` are the models. -/
+def layoutWitness : Oracle := realOracle {
+  dfmt := fun k => if k = asc "2022-9-3" then some 1 else if k = asc "2022-10-01" ∨ k = asc "2022-09-02" then some 0 else none
+  dparse := fun f k =>
+    if k = asc "2022-10-01" then some 1664582400000000000
+    else if k = asc "2022-09-02" then some 1662076800000000000
+    else if k = asc "2022-9-3" ∧ f = 1 then some 1662163200000000000 else none }
+
+/-- F19 without any stranger: all three keys are dates, yet the layout is taken from whichever key
+the closure is handed first.  Arrival `[2022-10-01, 2022-9-3, 2022-09-02]` (Go's insertion sort
+first asks `Less(1, 0)`, i.e. sees `2022-9-3`) sorts chronologically, arrival
+`[2022-9-3, 2022-10-01, 2022-09-02]` falls back to text. -/
+theorem date_layout_counterexample :
+    dateUniform layoutWitness sortSets [asc "2022-10-01", asc "2022-9-3", asc "2022-09-02"] = false
+    ∧ (goInsertionSort (byDateWithContextual layoutWitness sortSets) ({}, {}, ())
+          [asc "2022-10-01", asc "2022-9-3", asc "2022-09-02"]).1
+        = [asc "2022-09-02", asc "2022-9-3", asc "2022-10-01"]
+    ∧ (goInsertionSort (byDateWithContextual layoutWitness sortSets) ({}, {}, ())
+          [asc "2022-9-3", asc "2022-10-01", asc "2022-09-02"]).1
+        = [asc "2022-09-02", asc "2022-10-01", asc "2022-9-3"] := by
+  decide +kernel
 
 /-! ## what each mode means -/
 
